@@ -875,7 +875,7 @@ fn gen_pattern(rng: &mut Rng) -> String {
             }
             4 => p.push(*rng.pick(&['.', '*', '?', '+', '(', ')', '$', '^', '-'])),
             5 => p.push_str(*rng.pick(&[
-                "\\%", "\\_", "\\[", "\\]", "\\\\", "\\.", "\\*", "\\?", "\\^", "\\$", "\\(", "\\\\%", "\\\\_",
+                "\\%", "\\_", "\\[", "\\]", "\\\\", "\\.", "\\*", "\\?", "\\^", "\\$", "\\(", "\\\\%", "\\\\_", "\\a", "\\b", "\\c", "\\-",
             ])),
             6 => p.push(']'),
             _ => p.push_str("[c-a]"),
